@@ -69,3 +69,91 @@ Theorem C11_child_error_always_reported :
 Proof. exact (@C11_child_error_always_reported). Qed.
 Print Assumptions C11_child_error_always_reported.
 
+(* add this Require line (after the file's existing Require line, or right before the appended block:
+   both placements were test-compiled against a copy of the current Properties file) *)
+From MC Require Import Proofs.Round3Proofs.
+
+Theorem C11_status_answered :
+  forall (c : ccfg) (parent st : json), answered_by (C11_next c parent st) (update_parent_status c parent st).
+Proof. exact (@C11_status_answered). Qed.
+Print Assumptions C11_status_answered.
+
+Theorem C11_put_when_different :
+  forall (c : ccfg) (parent st cur : json),
+       get_uid cur = get_uid parent ->
+       jeqb (jget "status" (obj_map cur)) (desired_status parent st) = false ->
+       exists k k2 : answer -> prog apires,
+         update_parent_status c parent st = Do (status_get c parent) k /\
+         k (AObj cur) = Do (status_put c parent (status_body parent st cur)) k2.
+Proof. exact (@C11_put_when_different). Qed.
+Print Assumptions C11_put_when_different.
+
+Theorem C11_put_iff_different :
+  forall (c : ccfg) (parent st cur : json),
+       get_uid cur = get_uid parent ->
+       exists k : answer -> prog apires,
+         update_parent_status c parent st = Do (status_get c parent) k /\
+         ((exists (cl : call) (k2 : answer -> prog apires), k (AObj cur) = Do cl k2) <->
+          jeqb (jget "status" (obj_map cur)) (desired_status parent st) = false) /\
+         (forall (cl : call) (k2 : answer -> prog apires),
+          k (AObj cur) = Do cl k2 ->
+          cl = status_put c parent (status_body parent st cur) /\
+          jget "status" (obj_map (status_body parent st cur)) = desired_status parent st).
+Proof. exact (@C11_put_iff_different). Qed.
+Print Assumptions C11_put_iff_different.
+
+Theorem C11_written_when_different_run :
+  forall (c : ccfg) (parent st : json) (e : env) (post : list (call * answer)) (cur : json)
+         (pre : list (call * answer)),
+       fst (run (update_parent_status c parent st) e []) = (post ++ (status_get c parent, AObj cur) :: pre)%list ->
+       get_uid cur = get_uid parent ->
+       jeqb (jget "status" (obj_map cur)) (desired_status parent st) = false ->
+       exists (post' : list (call * answer)) (a : answer),
+         post = (post' ++ [(status_put c parent (status_body parent st cur), a)])%list.
+Proof. exact (@C11_written_when_different_run). Qed.
+Print Assumptions C11_written_when_different_run.
+
+Theorem C11_written_only_when_different_run :
+  forall (c : ccfg) (parent st : json) (e : env) (post : list (call * answer)) (q : req)
+         (a : answer) (pre : list (call * answer)),
+       fst (run (update_parent_status c parent st) e []) = (post ++ (CApi q, a) :: pre)%list ->
+       q_verb q <> VGet ->
+       exists (cur : json) (rest : list (call * answer)),
+         pre = (status_get c parent, AObj cur) :: rest /\
+         CApi q = status_put c parent (status_body parent st cur) /\
+         get_uid cur = get_uid parent /\ jeqb (jget "status" (obj_map cur)) (desired_status parent st) = false.
+Proof. exact (@C11_written_only_when_different_run). Qed.
+Print Assumptions C11_written_only_when_different_run.
+
+Theorem C11_written_when_different_inhabited :
+  let body := status_body R3C11.parent R3C11.st R3C11.cur in
+       get_uid R3C11.cur = get_uid R3C11.parent /\
+       jeqb (jget "status" (obj_map R3C11.cur)) (desired_status R3C11.parent R3C11.st) = false /\
+       desired_status R3C11.parent R3C11.st = R3C11.want /\
+       map fst (trace_of (update_parent_status R3C11.cfg R3C11.parent R3C11.st) R3C11.e_conflict_once) =
+       [status_get R3C11.cfg R3C11.parent; status_put R3C11.cfg R3C11.parent body; status_get R3C11.cfg R3C11.parent;
+        status_put R3C11.cfg R3C11.parent body] /\
+       status_put R3C11.cfg R3C11.parent body =
+       CApi
+         {|
+           q_verb := VUpdateStatus;
+           q_res := "parents.ctl.example.com/v1";
+           q_ns := "ns";
+           q_name := "p";
+           q_body := body;
+           q_uid_pre := "";
+           q_prop := ""
+         |} /\
+       status_put R3C11.cfg_nostatus R3C11.parent body =
+       CApi
+         {|
+           q_verb := VUpdate;
+           q_res := "parents.ctl.example.com/v1";
+           q_ns := "ns";
+           q_name := "p";
+           q_body := body;
+           q_uid_pre := "";
+           q_prop := ""
+         |} /\ jget "status" (obj_map body) = R3C11.want.
+Proof. exact (@C11_written_when_different_inhabited). Qed.
+Print Assumptions C11_written_when_different_inhabited.
